@@ -73,10 +73,19 @@ BROKER = {
             'SUBACK/UNSUBACK/PINGRESP match their request, at most one CONNACK: Lean theorems for every state; all short packet sequences are replayed against the real broker.',
             'Lean 4 proof (case analysis of the processor model) + trace conformance'),
 }
+TBX = ('Trusted: Lean 4.33 kernel (axioms propext, Classical.choice, Quot.sound only; no sorry/native_decide); the hand-written model (not a mechanical translation of the Go code); '
+       'the Go harness, Lean driver, canonicalisation, monitors and check script. The theorems are about the model; every run compares / replays the real code against the model on generated '
+       'scripts (sampling) and evaluates independent property monitors on the real behaviour. ')
+BROKER['C19'] = ('Every byte sequence on the carrier is the concatenation of the whole encodings of the accepted sends in event order (hence per-sender order) for every interleaving of send/timer/close/receive/fault events; '
+                 'close flushes everything accepted before the carrier is closed; after close or any error flushed sends fail at once, buffered sends after the next timer fire, receives never block; no event is ever disabled '
+                 'and there is no panic outcome: Lean theorems over every event sequence of the BaseConn LTS. The real transport.BaseConn (+ packet.Stream, mercury.Writer) runs over an instrumented carrier inside a testing/synctest bubble, '
+                 'scripted (exact comparison) and concurrent (the model must explain each instant by some interleaving), plus TCP/WebSocket loopback pairs. Partial: the carrier close on the receive error path is outside sendMutex and is treated as an environment fault event.',
+                 'Lean 4 proof (invariants over every event sequence of an LTS) + trace conformance')
+NOTE_OVERRIDE = {'C19': TBX + 'Not modelled: OS socket behaviour, real blocking, partial carrier writes; packets are opaque byte strings here (framing is C03).'}
 import json as _json, os as _os
 _props = _json.load(open(_os.path.join(_os.path.dirname(_os.path.dirname(_os.path.abspath(__file__))), 'lean', 'PROPS.json')))
 for _pid, (_text, _tech) in BROKER.items():
     if _props.get(_pid, {}).get('theorems'):
-        CHECKS[_pid] = dict(text=_text + ((' Partial: ' + _props[_pid]['partial']) if _props[_pid].get('partial') else ''), design_ref='§5 ' + _pid, technique=_tech, note=TBB)
+        CHECKS[_pid] = dict(text=_text + ((' Partial: ' + _props[_pid]['partial']) if _props[_pid].get('partial') else ''), design_ref='§5 ' + _pid, technique=_tech, note=NOTE_OVERRIDE.get(_pid, TBB))
 _PENDING = 'check not built yet in this revision (planned, see DESIGN.md §10); nothing is claimed'
 NOT_APPLICABLE = {f'C{n:02d}': _PENDING for n in range(1, 21) if f'C{n:02d}' not in CHECKS}
